@@ -517,5 +517,31 @@ def dropped_call_arguments(args):
     return False, "calls with keyword arguments are refused"
 
 
+@driver
+def first_of_sequences(args):
+    """First() of a sequence whose elements are sequences themselves: what is done with that first element afterwards must be generated inside
+    the loop that produces its items (else the item's loop variable is used outside its loop: the C++ does not compile)."""
+    import re
+    for qs in ["lambda e: e.Jets('A').Select(lambda j: e.Tracks('T').Where(lambda t: t.pt() > j.pt())).First().Select(lambda t: t.eta())",
+               "lambda e: e.Jets('A').Select(lambda j: e.Tracks('T').Select(lambda t: t.pt())).First().Count()"]:
+        try:
+            info, files = translate(_dataset().Select(qs))
+        except Exception:
+            continue
+        text = files["query.cxx"]
+        # every use of a loop variable must be inside the braces of its for statement
+        for m in re.finditer(r"for \(auto &&(\w+) : [^)]*\)\s*\{", text):
+            var, depth, i = m.group(1), 1, m.end()
+            while depth and i < len(text):
+                depth += {"{": 1, "}": -1}.get(text[i], 0)
+                i += 1
+            rest = text[i:]
+            use = re.search(r"\b%s\b" % var, rest)
+            if use:
+                line = rest[:use.end() + 40].splitlines()[-1 if "\n" not in rest[use.start():use.end() + 40] else -2].strip()
+                return True, "%s: the loop variable `%s` is used after its loop has been closed (`%s`)" % (qs, var, [l.strip() for l in rest.splitlines() if var in l][0])
+    return False, "every loop variable of the probe queries is used inside its loop only"
+
+
 if __name__ == "__main__":
     main()
